@@ -5,6 +5,7 @@
    Models only -- no proofs here. *)
 From Coq Require Import List NArith Bool.
 From HV Require Import Base.Str Base.Res.
+From HV Require Model.Parse.
 Import ListNotations.
 
 Definition ch_colon : N := 58%N.
@@ -184,6 +185,16 @@ Section Fold.
   Definition WFschema (S : list str) : bool :=
     forallb name_ok S && parents_ok S && forallb hash_leaf S && nodupb (short_keys S).
 End Fold.
+
+(* names that can stand in an annotation: no ',' '(' ')' anywhere, every component starts with a code point
+   other than U+0020 (and is not empty), the name does not end with U+0020.  With parent closure no
+   component ends with a blank either. *)
+Definition name_clean (n : str) : bool :=
+  forallb (fun c => negb (Parse.is_delim c)) n &&
+  forallb (fun f => match f with c :: _ => negb (N.eqb c ch_space) | [] => false end) (n :: tails n) &&
+  negb (N.eqb (last n 0%N) ch_space).
+
+Definition names_clean (S : list str) : bool := forallb name_clean S.
 
 (* ASCII lower-casing *)
 Definition ascii_lower (c : N) : N :=
